@@ -124,8 +124,8 @@ var defectBySentinel = map[string]spec.Defect{
 }
 
 type c11state struct {
-	mu     sync.Mutex
-	matrix map[string]int64 // "class -> sentinel" counts
+	mu        sync.Mutex
+	matrix    map[string]int64 // "class -> sentinel" counts
 	perMetric map[string]int64
 }
 
